@@ -137,7 +137,9 @@ def groupParse (gs : GuardList) (line : Text) : Res Group :=
   (idx parts 2).bind fun gid =>
   match parseIntB 10 gid with
   | none => .err
-  | some g => (idx parts 3).bind fun mem => .ok ⟨n, pw, toU32 g, splitOnChar ',' mem⟩
+  | some g =>
+    -- `if parts[3] != "" { … strings.Split(parts[3], ",") }`: both index expressions behind the same length check
+    (idx parts 3).bind fun mem => (idx parts 3).bind fun _ => .ok ⟨n, pw, toU32 g, splitMembers mem⟩
 
 def mapAllRes {α β : Type} (f : α → Res β) : List α → Res (List β)
   | [] => .ok []
